@@ -55,9 +55,14 @@ func runParser(overlay, file string, full bool) parseRes {
 		return parseRes{OK: true}
 	}
 	diag := ""
-	for _, l := range strings.Split(string(out), "\n") {
-		if strings.Contains(l, "AppArmor parser error") || strings.Contains(l, "rror") {
-			diag = strings.TrimSpace(l)
+	for _, pat := range []string{"AppArmor parser error", "conflicting", "ERROR", "rror"} {
+		for _, l := range strings.Split(string(out), "\n") {
+			if strings.Contains(l, pat) {
+				diag = strings.TrimSpace(l)
+				break
+			}
+		}
+		if diag != "" {
 			break
 		}
 	}
